@@ -121,17 +121,27 @@ class install(repo_ops.install):
 
 class uninstall(repo_ops.uninstall):
     def __init__(self, repo, pkg, observer):
-        self.remove_path = pjoin(
-            repo.location, pkg.category, pkg.package + "-" + pkg.fullver
-        )
+        base = pjoin(repo.location, pkg.category)
+        dirname = pkg.package + "-" + pkg.fullver
+        self.remove_path = pjoin(base, dirname)
+        # repo listing ignores .tmp.* entries; the entry is renamed to this
+        # (vanishing from the repo in one step) and only then wiped.
+        self.tmp_remove_path = pjoin(base, f".tmp.unmerge.{dirname}")
         super().__init__(repo, pkg, observer)
 
     def remove_data(self):
         return True
 
+    def _unlist_entry(self):
+        if os.path.lexists(self.tmp_remove_path):
+            # left behind by an interrupted run
+            shutil.rmtree(self.tmp_remove_path)
+        os.rename(self.remove_path, self.tmp_remove_path)
+
     def finalize_data(self):
         update_mtime(self.repo.location)
-        shutil.rmtree(self.remove_path)
+        self._unlist_entry()
+        shutil.rmtree(self.tmp_remove_path)
         update_mtime(self.repo.location)
         return True
 
@@ -148,13 +158,20 @@ class replace(repo_ops.replace, install, uninstall):
         return install.add_data(self, domain)
 
     def finalize_data(self):
-        # XXX: should really restructure this into
-        # a rename of the unmerge dir, rename merge into it's place (for
-        # literal same fullver replacements), then wipe the unmerge
-        # that minimizes the window for races, and gets the data in place
-        # should unmerge somehow die.
-        uninstall.finalize_data(self)
-        install.finalize_data(self)
+        if self.install_path == self.remove_path:
+            # literal same fullver replacement: rename the old entry out of
+            # the way, rename the new one into its place, then wipe the old
+            # one.  That leaves the smallest window a directory swap allows,
+            # and the new data is in place should the wipe somehow die.
+            update_mtime(self.repo.location)
+            self._unlist_entry()
+            install.finalize_data(self)
+            shutil.rmtree(self.tmp_remove_path)
+        else:
+            # different names: list the new entry before dropping the old
+            # one so there is never a moment where neither is recorded.
+            install.finalize_data(self)
+            uninstall.finalize_data(self)
         return True
 
 
